@@ -6,6 +6,8 @@ CONSTANTS
   MaxDepth = 2
   LitSizes = {3}
   ExprSizes = {1}
+  HandKinds = {1}
+  SideKs = {0, 1, 3}
   LeafSizes = {2}
   Runs = 3
   Modes <- AllModes
